@@ -193,6 +193,8 @@ func runC13(c *Check) {
 	ruleLockset(c, p, distinct, reach)
 	c.Doc("C13-R6", "VP+EO: contexts handed to other layers derive from the worker's context parameter.")
 	ruleContextProvenance(c, p, distinct, depth)
+	c.Doc("C13-R8", "EO: every loop that waits on a one-shot timer (time.NewTimer) re-arms that timer on every path that leads back to the wait; a path without Reset parks the loop for good (a ticker needs no re-arming).")
+	ruleTimersRearmed(c, p, "C13-R8")
 	c.Doc("C13-R7", "EO (pairing): every mutex acquisition in the node's packages and the sequencing layer is released on every path to a return (a leaked lock parks the loops that share it in Lock(), which no stop request can interrupt).")
 	ruleLockPairing(c, "C13-R7", []*Prog{p, c.Mod(ModSingle)})
 }
@@ -873,4 +875,106 @@ func ruleLockPairing(c *Check, rule string, progs []*Prog) {
 		c.Unk(rule, "lock-sites", "", "", "anchor lost: no mutex acquisition found")
 	}
 	c.MinInstances(rule, 8)
+}
+
+// ruleTimersRearmed: for every blocking select in the block package with a receive case on the
+// channel of a timer created by time.NewTimer, every path from that case back to the same select
+// passes a Reset of that timer.
+func ruleTimersRearmed(c *Check, p *Prog, rule string) {
+	n := 0
+	for _, fn := range p.Funcs {
+		pk := fnPkg(fn)
+		if pk == nil || pk.Pkg.Path() != rootPath+"/block" || fn.Parent() != nil || fn.Blocks == nil {
+			continue
+		}
+		hasSel := false
+		for _, body := range append([]*ssa.Function{fn}, fn.AnonFuncs...) {
+			for _, b := range body.Blocks {
+				for _, in := range b.Instrs {
+					if s, ok := in.(*ssa.Select); ok && s.Blocking {
+						hasSel = true
+					}
+				}
+			}
+		}
+		if !hasSel {
+			continue
+		}
+		g := BuildECFG(p, fn, ExpandOpts{MaxDepth: 1, Stop: func(f *ssa.Function) bool {
+			return strings.Contains(fnName(f), "publishBlockInternal") || isSubmitterFn(f)
+		}})
+		sels := g.Select(func(x *Node) bool {
+			s, ok := x.In.(*ssa.Select)
+			return ok && s.Blocking && topParent(x.Ctx.Fn) == fn
+		})
+		for _, sel := range sels {
+			s := sel.In.(*ssa.Select)
+			for idx, st := range s.States {
+				if st.Dir != types.RecvOnly {
+					continue
+				}
+				ch := TermOf(st.Chan, sel.Ctx)
+				if ch.Op != "field" || ch.Name != "C" || len(ch.Args) != 1 {
+					continue
+				}
+				tm := ch.Args[0]
+				isOneShot := false
+				tm.Walk(func(x *Term) bool {
+					if x.IsCall("time.NewTimer") {
+						isOneShot = true
+					}
+					return true
+				})
+				if !isOneShot {
+					continue
+				}
+				c.NoteGraph(g)
+				n++
+				// the edges on which this case was taken
+				idxC := idx
+				caseEdges := g.Select(func(x *Node) bool {
+					if x.Kind != NTrue && x.Kind != NFalse {
+						return false
+					}
+					ifi := x.In.(*ssa.If)
+					b, ok := ifi.Cond.(*ssa.BinOp)
+					if !ok || b.Op != token.EQL {
+						return false
+					}
+					ex, ok := b.X.(*ssa.Extract)
+					if !ok || ex.Index != 0 || ex.Tuple != ssa.Value(s) {
+						return false
+					}
+					k, ok := b.Y.(*ssa.Const)
+					if !ok {
+						return false
+					}
+					if x.Kind == NTrue {
+						return int(k.Int64()) == idxC
+					}
+					return int(k.Int64())+1 == idxC && idxC == len(s.States)-1
+				})
+				if len(caseEdges) == 0 {
+					// a select whose only case after ctx.Done is this one falls through without a test
+					caseEdges = []*Node{sel}
+				}
+				tname := tm.String()
+				isReset := func(x *Node) bool {
+					return CallName(x) == "(*time.Timer).Reset" && RecvTerm(x) != nil && RecvTerm(x).String() == tname
+				}
+				inst := fnShort(fn) + " ⟂ " + trunc(tname, 40) + " re-armed before waiting again"
+				from := caseEdges
+				if len(from) == 1 && from[0] == sel {
+					// leave the select first: successors of the select node
+					from = sel.Succ
+				}
+				c.Decide(rule, inst, fnName(fn), p.InstrPos(sel.In), "every path from the timer's case back to the wait resets the timer",
+					"the loop can return to its wait after the timer fired without resetting it: a one-shot timer never fires again, so the loop sleeps until shutdown (submission / production stops for good)", g,
+					g.PathAvoiding(from, func(x *Node) bool { return x == sel }, isReset))
+			}
+		}
+	}
+	if n == 0 {
+		c.OK(rule, "block ⟂ one-shot-timers", "", "", "no loop of the block package waits on a one-shot timer outside the aggregation loops' own rule", false)
+	}
 }
